@@ -471,12 +471,13 @@ THIN_SUBST = IO_SUBST + [
     (r"(?s)owning_data_t\s*\(\s*configuration_t\s*\{\s*\}\s*,\s*std::move\s*\(\s*be\s*\)\s*\)", "verif_thin_own_ctor(be)", 0, True),
     (r"(?s)\breturn\s+owning_data_t\s*\(\s*\)\s*;", "return verif_ident_own_ctor();", 0, True),
 ]
-THIN_FILES = {"1": (LINEAR, "struct linear"), "2": (NN, "struct nearest_neighbour"), "3": (SHUFFLE, "struct shuffle"), "4": (IDENTITY, "struct identity")}
+THIN_FILES = {"1": (LINEAR, "struct linear"), "2": (NN, "struct nearest_neighbour"), "3": (SHUFFLE, "struct shuffle"), "4": (IDENTITY, "struct identity"),
+              "6": (CAST, "struct covariant_cast"), "7": (DEREF, "struct dereference"), "8": (CONSTANT, "struct constant")}
 
 
 def make_thin_io(name, consts, T="1"):
     fns = binio_fns()
-    if T in ("1", "2", "3"):
+    if T in ("1", "2", "3", "6", "7"):
         f, sc = THIN_FILES[T]
         fns.append(Fn("thin_read_binary", f, [sc, "struct owning_data_t"], "read_binary", ret="THIN_OWN_T", ptypes=["VERIF_ISTREAM *"],
                       subst=THIN_SUBST, throws=True, propagate=MAY_THROW, dummy_ret="((THIN_OWN_T){{0}})"))
@@ -488,12 +489,78 @@ def make_thin_io(name, consts, T="1"):
                       subst=THIN_SUBST, throws=True, propagate=MAY_THROW, dummy_ret="((IDENT_OWN_T){0})"))
         fns.append(Fn("ident_write_binary", f, [sc, "struct owning_data_t"], "write_binary", ret="void", ptypes=["VERIF_OSTREAM *", "const IDENT_OWN_T *"],
                       subst=THIN_SUBST))
+    elif T == "8":
+        f, sc = THIN_FILES[T]
+        csub = THIN_SUBST + [(r"(?s)(?:utility::)?read_binary\s*<\s*typename\s+covariant_output_t::vector_t\s*>\s*\(", "read_binary_outvec(", 0, True),
+                             (r"\bauto\s+vec\b", "OUT_VEC_T vec", 0, True),
+                             (r"(?s)\breturn\s+owning_data_t\s*\(\s*vec\s*\)\s*;", "return verif_const_own_ctor(vec);", 0, True),
+                             (r"__typeof__\s*\(\s*o\.m_value\s*\)", "OUT_VEC_T", 0, True)]
+        fns.append(Fn("read_binary_outvec", BINIO, ["namespace covfie::utility"], "read_binary", ret="OUT_VEC_T", ptypes=["VERIF_ISTREAM *"],
+                      subst=[("T", "OUT_VEC_T", 0)] + IO_SUBST, drop=[r"(?s)static_assert\s*\(.*?\)\s*;"], throws=True, dummy_ret="rv"))
+        fns.append(Fn("const_read_binary", f, [sc, "struct owning_data_t"], "read_binary", ret="CONST_OWN_T", ptypes=["VERIF_ISTREAM *"],
+                      subst=csub, throws=True, propagate=MAY_THROW, dummy_ret="((CONST_OWN_T){0})"))
+        fns.append(Fn("const_write_binary", f, [sc, "struct owning_data_t"], "write_binary", ret="void", ptypes=["VERIF_OSTREAM *", "const CONST_OWN_T *"],
+                      subst=csub, refparams=["o"]))
     elif T == "5":
         fns.append(Fn("field_load", FIELD, ["class field"], "field", params_hint=r"std::istream", ret="void", ptypes=["VERIF_ISTREAM *"], ctor=True,
                       method="THIN_OWN_T *self", members=["m_backend"], subst=THIN_SUBST, throws=True, propagate=MAY_THROW, dummy_ret=""))
         fns.append(Fn("field_dump", FIELD, ["class field"], "dump", ret="void", ptypes=["VERIF_OSTREAM *"],
                       method="const THIN_OWN_T *self", members=["m_backend"], subst=THIN_SUBST))
     return Unit(name, fns, "contracts/thin_io.h", "lemmas/thin_io.c")
+
+
+# ---------------------------------------------------------------- affine algebra and layer (C09)
+ALG_MATRIX = CORE + "algebra/matrix.hpp"
+ALG_AFFINE = CORE + "algebra/affine.hpp"
+AFFINE_L = CORE + "backend/transformer/affine.hpp"
+
+
+def mat_subst(n, m, p, res):
+    """binds the template parameters of algebra::matrix<N, M, T, I>::operator*<P> for one instantiation"""
+    return [
+        (r"matrix\s*<\s*N\s*,\s*P\s*,\s*T\s*,\s*I\s*>", res, 0, True),
+        (r"matrix\s*<\s*N\s*,\s*M\s*,\s*T\s*,\s*I\s*>", res, 0, True),
+        (r"\bN\b", n, 0, True), (r"\bM\b", m, 0, True), (r"\bP\b", p, 0, True), (r"\bT\b", "AT", 0, True), (r"\bI\b", "size_t", 0, True),
+    ]
+
+
+AFF_SUBST = [
+    (r"vector\s*<\s*N\s*\+\s*1\s*,\s*T\s*,\s*I\s*>", "VEC_N1", 0, True),
+    (r"vector\s*<\s*N\s*,\s*T\s*,\s*I\s*>", "VEC_N", 0, True),
+    (r"matrix\s*<\s*N\s*\+\s*1\s*,\s*N\s*\+\s*1\s*,\s*T\s*,\s*I\s*>", "MAT_N1_N1", 0, True),
+    (r"(?s)return\s+matrix\s*<\s*N\s*,\s*N\s*\+\s*1\s*,\s*T\s*,\s*I\s*>\s*::\s*operator\s*\*\s*\(\s*(\w+)\s*\)", r"return mat_mul_a(self, &\1)", 0, True),
+    (r"matrix\s*<\s*N\s*,\s*N\s*\+\s*1\s*,\s*T\s*,\s*I\s*>\s*::\s*identity\s*\(\s*\)", "mat_identity()", 0, True),
+    (r"matrix\s*<\s*N\s*,\s*N\s*\+\s*1\s*,\s*T\s*,\s*I\s*>", "MAT_N_N1", 0, True),
+    (r"(?s)array::array\s*<\s*T\s*,\s*N\s*>\s*arr\s*\{\s*args\s*\.\.\.\s*\}\s*;", "ARGS_T arr = args;", 0, True),
+    (r"=\s*m1\s*\*\s*m2\s*;", "= mat_mul_b(&m1, &m2);", 0, True),
+    (r"\bN\b", "DIMS_IN", 0, True), (r"\bT\b", "AT", 0, True), (r"\bI\b", "size_t", 0, True),
+]
+SA_DROP = [r"(?s)static_assert\s*\(.*?\)\s*;"]
+
+
+def make_affine(name, consts):
+    fns = []
+    fns.append(Fn("mat_mul_a", ALG_MATRIX, ["struct matrix"], "operator*", ret="VEC_N", ptypes=["const VEC_N1 *"], method="const MAT_N_N1 *self",
+                  subst=mat_subst("DIMS_IN", "N1", "1", "VEC_N"), mats={"o": ("->", "mat"), "r": (".", "mat")}))
+    fns.append(Fn("mat_mul_b", ALG_MATRIX, ["struct matrix"], "operator*", ret="MAT_N1_N1", ptypes=["const MAT_N1_N1 *"], method="const MAT_N1_N1 *self",
+                  subst=mat_subst("N1", "N1", "N1", "MAT_N1_N1"), mats={"o": ("->", "mat"), "r": (".", "mat")}))
+    fns.append(Fn("mat_identity", ALG_MATRIX, ["struct matrix"], "identity", ret="MAT_N_N1", ptypes=[],
+                  subst=mat_subst("DIMS_IN", "N1", "1", "MAT_N_N1"), mats={"result": (".", "mat")}))
+    fns.append(Fn("affine_apply", ALG_AFFINE, ["struct affine"], "operator*", params_hint=r"vector", ret="VEC_N", ptypes=["const VEC_N *"],
+                  method="const MAT_N_N1 *self", subst=AFF_SUBST, mats={"r": (".", "vec"), "v": ("->", "vec")}))
+    fns.append(Fn("affine_mul", ALG_AFFINE, ["struct affine"], "operator*", params_hint=r"affine", ret="MAT_N_N1", ptypes=["const MAT_N_N1 *"],
+                  method="const MAT_N_N1 *self", subst=AFF_SUBST,
+                  mats={"m1": (".", "mat"), "m2": (".", "mat"), "m": ("->", "mat"), "r": (".", "mat"), "o": (".", "mat")}))
+    fns.append(Fn("affine_translation", ALG_AFFINE, ["struct affine"], "translation", ret="MAT_N_N1", ptypes=["ARGS_T"], pnames=["args"],
+                  subst=AFF_SUBST, drop=SA_DROP, arrays=["arr"], mats={"result": (".", "mat")}))
+    fns.append(Fn("affine_scaling", ALG_AFFINE, ["struct affine"], "scaling", ret="MAT_N_N1", ptypes=["ARGS_T"], pnames=["args"],
+                  subst=AFF_SUBST, drop=SA_DROP, arrays=["arr"], mats={"result": (".", "mat")}))
+    fns.append(Fn("affine_at", AFFINE_L, ["struct affine", "struct non_owning_data_t"], "at", ret="OUT_VEC_T", ptypes=["IN_VEC_T"],
+                  vec_types=["IN_VEC_T", "B_IN_VEC_T"], method="const AFFINE_SELF_T *self", members=["m_transform"],
+                  subst=[(r"(?s)covfie::algebra::vector\s*<\s*contravariant_input_t::dimensions\s*,\s*typename\s+contravariant_input_t::scalar_t\s*>", "VEC_N", 0, True),
+                         (r"=\s*m_transform\s*\*\s*v\s*;", "= affine_apply(&m_transform, &v);", 0, True)] + LAYER_SUBST + [("m_backend.at(", "backend_at(", 0)],
+                  mats={"v": (".", "vec"), "nv": (".", "vec")}))
+    return Unit(name, fns, "contracts/affine.h", "lemmas/affine.c", stubs=["stubs/backend.h"])
 
 
 def get_unit(name, consts=None):
@@ -525,3 +592,4 @@ FACTORIES["linear"] = make_linear
 FACTORIES["layer_io"] = make_layer_io
 FACTORIES["copy"] = make_copy
 FACTORIES["thin_io"] = make_thin_io
+FACTORIES["affine"] = make_affine
